@@ -37,6 +37,7 @@ class C01(EngineBase):
             "p_cache": r.choice([0.0, 0.1, 0.3]),
             "p_flush": r.choice([0.0, 0.1, 0.3]),
             "p_shuffle": r.choice([0.0, 0.1]),
+            "p_variant": r.choice([0.0, 0.15, 0.3]),
             "kinds": r.choice([["A", "F"], ["F"], ["F"], ["A"]]),
             "syms": r.choice([["Z2"], ["U1"], ["Z2Z2"], ["U1U1"], ["Z4"], ["Z4"],
                               ["Z2", "U1", "Z2Z2", "U1U1", "Z4"]]),
@@ -51,6 +52,8 @@ class C01(EngineBase):
         st.heap = {}
         st.ctx = None
         st.states = set()
+        st.roots = {}     # name -> spec of arrays built from specs
+        st.first = {}     # root name -> first unary step applied to it
         return st
 
     def gen_macro(self, st, rng):
@@ -68,7 +71,39 @@ class C01(EngineBase):
         an = ops.names_of(st.heap, "AF")
         if an and rng.random() < cfg["p_shuffle"]:
             steps.append({"op": "@shuffle", "in": [rng.choice(an)], "k": rng.randrange(1000)})
-        new = ops.gen_steps(st.ctx, st.heap)
+        new = None
+        if st.first and rng.random() < cfg.get("p_variant", 0.0):
+            # a near-identical array (one attribute changed, possibly only the
+            # symmetry group) gets the very call an earlier array got: results
+            # must be valid whatever plans that earlier call left behind
+            from .. import specs as _specs
+            import copy as _copy
+            r = rng.choice(sorted(st.first))
+            kind, v = _specs.variant_of(rng, st.roots[r], st.ctx.labels,
+                                        kinds=["sym", "sym", "dual", "sector", "size", "label", "dtype"])
+            if v is not None and v["sym"] in cfg["syms"] + ["Z2", "U1", "Z4", "Z2Z2", "U1U1"]:
+                nn = st.ctx.fresh()
+                stp = _copy.deepcopy(st.first[r])
+                stp["in"] = [nn]
+                stp["out"] = [st.ctx.fresh() for _ in stp["out"]]
+                stp["a"].pop("inplace", None)
+                stp.pop("crash", None)
+                stp.pop("crash_n", None)
+                new = [{"op": "new", "in": [], "out": [nn], "a": {"spec": v}, "variant": kind}, stp]
+        if not new:
+            new = ops.gen_steps(st.ctx, st.heap)
+        for s in new:
+            if s["op"] == "new" and "variant" not in s:
+                st.roots[s["out"][0]] = s["a"]["spec"]
+            elif (len(s.get("in", [])) == 1 and s["in"][0] in st.roots
+                    and s["in"][0] not in st.first and len(st.first) < 8
+                    and s["op"] in ("fuse", "reshape", "transpose", "conj", "dagger",
+                                    "svd_truncated", "qr", "svd", "squeeze", "expand_dims")
+                    # (no einsum: a trace equation is only valid for the
+                    # directions it was drawn for)
+                    # a charge argument is only valid for the group it was drawn for
+                    and s.get("a", {}).get("c") is None):
+                st.first[s["in"][0]] = {k: v for k, v in s.items()}
         for s in new:
             if (cfg["p_crash"] and not ops.is_inplace(s)
                     and s["op"] not in ("new", "newvec", "del")
@@ -212,6 +247,8 @@ class C01(EngineBase):
             return
         st.stats["step.ok"] += 1
         st.stats["op." + op] += 1
+        if "variant" in step:
+            st.stats["reach.variant." + step["variant"]] += 1
         if S.kind_of(res) in "AF":
             st.states.add(core.digest([op, S.structure(res)])[:12])
             ix = res.indices
